@@ -57,7 +57,7 @@ class RefMixin:
         """returns (held: dict e -> number of legitimate holders inside N,
                     pending: set of e in an output whose consumer is unfinished,
                     failed: set of e whose processing raised)"""
-        name = self.node_name()
+        name = self.params.get("model") or self.node_name()
         arg = self.params.get("arg")
         emitted = []
         since_delivery = []       # arrivals since the last hand-off to the consumer
@@ -97,7 +97,7 @@ class RefMixin:
         held = {}
         if name in ("direct", "map"):
             pass
-        elif name in ("buffer", "delay", "rate_limit", "map_async", "timed_window", "partition"):
+        elif name in ("buffer", "delay", "rate_limit", "map_async", "timed_window", "partition", "lossless"):
             for x in emitted:
                 if x not in delivered and x not in failed:
                     held[x] = 1
@@ -254,6 +254,10 @@ class RefChain(_GateFailures, RefMixin, PipeScenario):
         name, a = parse(spec)
         self.params["site"] = name
         self.params["arg"] = a[1:] if name in ("timed_window_unique", "partition_unique") else a
+        if len(p["nodes"]) > 1:
+            # a chain of lossless buffering nodes: held (somewhere inside) until handed to the consumer
+            self.params["site"] = "+".join(parse(x)[0] for x in p["nodes"])
+            self.params["model"] = "lossless"
         self.horizon = 2.0 if needs_clock(p["nodes"]) else 0.0
 
     def site(self):
@@ -358,7 +362,7 @@ def factory(key):
         _, _, node, kind, mode, n, fail = key[:7]
         items = key[7] if len(key) > 7 and isinstance(key[7], tuple) else None
         fan = 1 if (len(key) > 7 and key[7] == "fan") else 0
-        return lambda: RefChain(prop=prop, nodes=(node,), kind=kind, mode=mode, n=n, fail=fail,
+        return lambda: RefChain(prop=prop, nodes=tuple(node.split(",")), kind=kind, mode=mode, n=n, fail=fail,
                                 items=list(items) if items else None, fan=fan)
     _, _, join, kind, mode, n, fail = key
     return lambda: RefJoin(prop=prop, join=join, left="", right="", kind=kind, mode=mode, n=n, fail=fail)
@@ -393,6 +397,13 @@ def plan(ctx, prop="C04"):
             jobs.append(((prop, "chain", node, "future", "await", 2, 1), 1))
     for j in JOINS:
         jobs.append(((prop, "join", j, "future", "await", 2, 0), 1))
+    if prop == "C04":
+        # two lossless buffering nodes in series (thorough: all ordered pairs)
+        LL = ["buffer:1", "delay:1", "rate_limit:1", "map_async:1", "partition:2:1", "timed_window:1"]
+        pairs = [(a, b) for a in LL for b in LL] if T else [("buffer:1", "map_async:1"), ("map_async:1", "buffer:1"), ("buffer:1", "rate_limit:1"),
+                                                             ("timed_window:1", "buffer:1"), ("partition:2:1", "map_async:1"), ("delay:1", "buffer:1")]
+        for a, b in pairs:
+            jobs.append(((prop, "chain", a + "," + b, "future", "await", 2, 1), 0))
     # fan-out at the entry point: synchronous branch first, then the holding node / slow consumer
     for node in ("direct", "map", "buffer:1", "delay:1", "partition:2", "latest", "sliding_window:2", "map_async:1"):
         jobs.append(((prop, "chain", node, "future", "await", 2, 1 if prop == "C04" else 0, "fan"), 1 if node not in ("delay:1",) else 0))
